@@ -388,6 +388,15 @@ theorem attach_other (E : HEnv F D Mat Vec) (h : Heap F D Mat Vec) (hw : WF h) (
   · exact upd_other _ _ (Nat.ne_of_lt (hw.orb _ (hw.data j hj)))
   · rfl
 
+/-- **`sv.cov = obj_i`, looked at through `obj_i`, is `Cov.attach` of Model/Cov.lean**: the private copy becomes the
+state as it is expressed now (its frame, its coordinates, its date); tag, `_orb_frame` and values are untouched.  This ties
+the single-object `attach` the theorems of Props/C14Attach.lean are about to the heap operation the correspondence runs. -/
+theorem attach_self (E : HEnv F D Mat Vec) (h : Heap F D Mat Vec) (s i : Nat) (f : F) (hf : (h.obj i).orbFrame = some f) :
+    ((h.attach s i).view E i).st = Cov.attach (h.view E i).st (h.sv s).frame (h.sv s).x ∧
+    ((h.attach s i).view E i).date = (h.sv s).date ∧ ((h.attach s i).view E i).orbFrame = (h.view E i).orbFrame := by
+  simp only [Heap.attach, Heap.view, upd_same, View.st, Cov.attach, hf, Option.getD_some]
+  exact ⟨rfl, trivial, trivial⟩
+
 /-- `sv.frame = g` touches, among the covariances, at most the one attached to `sv` -/
 theorem svHop_other (E : HEnv F D Mat Vec) (h : Heap F D Mat Vec) (s j : Nat) (g : F)
     (hs : ∀ i, (h.sv s).cov = some i → Sep h i j) : (h.svHop E s g).view E j = h.view E j := by
